@@ -79,8 +79,11 @@ CHECKS = {
                                    "simulations whose every space/point pair is judged by the Lean membership predicate",
         note=NOTE + " C02 specifically: the theorems are about the component models and the Space/Pt model; that a real "
              "simulation's step is a history of component calls is proved for the five modelled example classes "
-             "(Props/Examples.lean) and monitored for the rest; gymnasium's `contains`, ReachTheTargetSim and the examples "
-             "with hand-written observers / components are monitored at run time, not proved; how a Python value is read as a "
+             "(Props/Examples.lean), for MultiCorridor, MultiAgentGridSim, ReachTheTargetSim (every reachable state, "
+             "Props/Reach.lean) and in part for the two pacman classes (Props/Pacman.lean); gymnasium's `contains` and the "
+             "comms_blocking example (hand-written observers / components) are monitored at run time, not proved; rejected "
+             "assignments through every public setter of every component of a session (harness/poke.py) must leave what was "
+             "configured in force; how a Python value is read as a "
              "point (harness/c02sims.py dump_point) is harness code; C02-E1 (the comms_blocking example's "
              "broadcast observation, dba409b), C02-N1 (communication wrapper kept null points unchanged, ad51457), "
              "C02-N2 (ravel / flatten wrappers converted null points only if truthy, 7d54d86) and C02-A1 (selective "
@@ -547,9 +550,20 @@ MORE_EXAMPLES = {
            "in-grid position lies in the declared space - the WInv observer theorem transported through RT.heal, since "
            "these worlds only satisfy WInvWeak; reach_step_noRaise_WInv / reach_first_step_noRaise: a step whose items are "
            "points of the declared action spaces of learning agents does not raise when it starts in a WInv world, in "
-           "particular the first step of every episode (the situation of R1); for steps starting in a world that is "
-           "only WInvWeak this is judged at run time (RT.stepMustNotRaise): missing is that "
-           "SelectiveAttackActor.process_action returns there (attackOK_all is proved for WInv worlds)).",
+           "particular the first step of every episode (the situation of R1); since the last session also for EVERY "
+           "reachable state, which is only WInvWeak: reach_stepMustNotRaise_returns (the judge's Boolean alone implies "
+           "that step returns, no invariant hypothesis), reach_step_noRaise, reach_simIface_step_returns, via "
+           "RT.processAttack_heal (process_action of every attack actor commutes with `set the health of inactive "
+           "agents to 0`) and RT.processAttack_ok_weak; reach_hist: the judge RT.specRT holds on the model's trace for "
+           "every history; reach_inactive_positions_in_grid, reach_observations_in_space_all, reach_getters_total). "
+           "PacmanSim and PacmanSimSimple are modelled instances too (Model/Pacman.lean, judge PM.specPM, driver "
+           "configuration `(pacman ..)`, harness/p_pacman.py: both packaged grids and generated odd layouts, any action "
+           "dicts, raising steps with the exact state they leave): PM.pm_lawful / PM.pm_WF, pacman_reset_establishes, "
+           "pacman_reset_forgets, pacman_fresh_twin, PM.step_vsame, pacman_reachable_inv, pacman_reset_after_anything "
+           "and the witnesses pacman_teleport_outside_grid_raises, pacman_refused_teleport_witness, "
+           "pacman_allDone_ignores_eaten_food, pacmansimple_few_baddies_raises are proved; the cell structure of every "
+           "reachable state (WInvFloat), observations in space and the no-raise statement under PM.stepPre are stated in "
+           "Props/Pacman.lean and judged at run time on every case until proved (see DESIGN.md 11.2).",
     "C03": "MultiCorridor's own invariant (positions within 0..end-1, not-done agents pairwise apart, corridor cells = the "
            "not-done agents at their positions) is proved for every history (corridor_reachable_inv, corridor_inv_reading); "
            "MultiAgentGridSim is a modelled instance (multigrid_reachable_WInv, multigrid_simIface_reachable); "
